@@ -76,6 +76,11 @@ def adversarial(rng):
         p = {"epsilon": 1.0, "delta": 1e-6, "targets": targets, "split_strategy": split, "threshold": 5.0}
         out.append({"mech": "AdaGrid", "params": p, "attrs": ["a", "b", "c"], "sizes": [2, 3, 2],
                     "records": [[rng.randrange(2), rng.randrange(3), rng.randrange(2)] for _ in range(6)], "seed": rng.randrange(10 ** 6)})
+    # AIM with a model-size cap that binds in the first rounds and relaxes later (candidates of larger weight enter late)
+    for cap_ in (1.2e-4, 2e-4):
+        p = {"epsilon": 3.0, "delta": 1e-6, "rounds": 6, "workload": [("a", "b", "c")], "max_model_size": cap_}
+        out.append({"mech": "AIM", "params": p, "attrs": ["a", "b", "c"], "sizes": [2, 3, 2],
+                    "records": [[rng.randrange(2), rng.randrange(3), rng.randrange(2)] for _ in range(8)], "seed": rng.randrange(10 ** 6), "all_neighbours": True})
     # AIM with a workload that leaves an attribute uncovered (one-way releases are due only for covered attributes)
     for wl in ([("a", "b")], [("b", "c")]):
         p = {"epsilon": 1.0, "delta": 1e-6, "rounds": 4, "workload": wl}
